@@ -25,9 +25,14 @@ def run(chk):
     per_ext = 40 if quick else 600
     batch, meta = [], {}
     k = 0
+    small = [c for c in bad if sum(len(i["tags"]) for i in c["items"]) <= 2 and len(c["items"]) <= 2]
     for ext in langs.ALL_SUFFIXES:
-        for j, c in enumerate(bad[:per_ext]):
-            r = langs.render(c["items"], ext, j)
+        pool = [(c, False, e) for c in small for e in range(4)] + [(c, True, 0) for c in small] + \
+               [(c, j % 5 == 4, None) for j, c in enumerate(bad[:per_ext])]
+        for j, (c, bare, endsp) in enumerate(pool):
+            if ext in ("md", "markdown") and bare:
+                continue
+            r = langs.render(c["items"], ext, j, bare=bare, endsp=endsp)
             files = {r["name"]: r["text"]}
             if j % 2:
                 files.update(HEALTHY)
